@@ -20,7 +20,7 @@ def run(chk):
     r3(chk, prog)
     r4(chk, prog)
     if any(o.verdict == "REFUTED" for o in chk.obls):
-        chk.note("R2 (automaton product) skipped: the index invariant or a push site is already refuted, so the level stack "
+        chk.note("R2 (automaton product) skipped: the level stack's allocation or a push site is already refuted, so the level stack "
                  "may be indexed out of bounds and the extracted automaton would be meaningless")
         chk.rule("C15.R2", "exactness in the product with the RFC reference (skipped, see notes)")
     else:
@@ -132,9 +132,12 @@ def r1(chk, prog):
         if failed is None:
             chk.proven(rid, f.name, sig, st.locstr(), "preserves 0 <= depth < max_depth given the dominating guards", {"guards": prov})
         else:
-            chk.refuted(rid, f.name, sig, st.locstr(),
-                        "this write can break 0 <= depth < max_depth (%s not implied by the dominating guards %s): the level stack "
-                        "would be indexed out of bounds" % (failed, prov or "(none)"), {"guards": prov})
+            # the guard may have been evaluated in an earlier state of the dispatch loop (an earlier iteration or call): that is a
+            # fact about the automaton, not about dominance in the CFG.  R2 decides it for the analysed limits (no reachable
+            # configuration has depth >= limit); for arbitrary limits it stays undecided.
+            chk.undecided(rid, f.name, sig, st.locstr(),
+                          "%s is not implied by the guards that dominate this write (%s); whether an earlier state of the dispatch loop "
+                          "established it is decided by R2 for the analysed limits only" % (failed, prov or "none"))
     chk.floor(rid, len(writers), 4, "writers of tok->depth")
 
 
@@ -164,6 +167,17 @@ def r2(chk, prog):
         for flags, ext, name in ((0, True, "default"), (1, False, "strict")):
             T, stats, checks, parent = tokrules.get_product(prog, flags, D, ext)
             tokrules.describe_table(chk, T, "%s_d%d" % (name, D))
+            # (0) safety: no reachable configuration indexes the level stack at or beyond the limit
+            deep = T.stats.get("out_of_range", [])
+            n += 1
+            sig = "limit %d, %s: level index stays inside the stack" % (D, name)
+            if deep:
+                c0, nd, bs = deep[0]
+                chk.refuted(rid, "json_tokener_parse_ex", sig, "json_tokener.c",
+                            "from the reachable parser configuration %s the byte %r moves the level index (tok->depth) to %d with limit %d: the level "
+                            "stack of %d records is indexed out of bounds" % (T.cfg_str(c0), bytes([bs[0] % 256]) if bs else b"?", nd, D, D))
+            else:
+                chk.proven(rid, "json_tokener_parse_ex", sig, "json_tokener.c", "%d reachable configurations, all with depth < %d" % (len(T.trans), D))
             # (a) every value start beyond the limit gives error_depth
             dep = [c for c in checks if c.get("oblig") == "depth"]
             bad = [c for c in dep if not c["holds"]]
@@ -188,7 +202,7 @@ def r2(chk, prog):
                             % (tokrules.entry_witness(T, parent, c), len(c["ref"][1]), D))
             else:
                 chk.proven(rid, "json_tokener_parse_ex", sig, "json_tokener.c", "no nesting error at any position within the limit")
-    chk.floor(rid, n, 4, "exactness obligations")
+    chk.floor(rid, n, 6, "exactness and safety obligations")
 
 
 def r3(chk, prog):
@@ -223,7 +237,8 @@ def r3(chk, prog):
                     guard = (c, tr)
         sig = "guard of depth++"
         if guard is None:
-            chk.refuted(rid, fw.name, sig, st.locstr(), "increment of depth not dominated by a comparison of depth with max_depth")
+            chk.undecided(rid, fw.name, sig, st.locstr(), "increment of depth not dominated by a comparison of depth with max_depth in the "
+                          "CFG; R2 decides safety and exactness on the automaton for the analysed limits")
             continue
         c, tr = guard
         # the other edge must store error_depth into tok->err before leaving
